@@ -272,7 +272,8 @@ public:
     XalanObjectCache(MemoryManager&     theManager,
                     XalanSize_t             initialListSize = 0) :
         m_deleteFunctor(theManager),
-        m_availableList(theManager)
+        m_availableList(theManager),
+        m_outstanding(0)
     {
         m_availableList.reserve(initialListSize);
     }
@@ -292,17 +293,41 @@ public:
     ObjectType*
     get()
     {
+        // release() puts the object back on the available list.  It is
+        // called from destructors, so it must not allocate: make room
+        // now for every object that is, or is about to be, handed out.
+        const typename VectorType::size_type    theRequiredCapacity =
+            m_availableList.size() + m_outstanding + 1;
+
+        if (m_availableList.capacity() < theRequiredCapacity)
+        {
+            const typename VectorType::size_type    theDoubledCapacity =
+                m_availableList.capacity() * 2;
+
+            m_availableList.reserve(
+                theDoubledCapacity > theRequiredCapacity ?
+                    theDoubledCapacity :
+                    theRequiredCapacity);
+        }
+
         // We'll always return the back of the free list, since
         // that's the cheapest thing.
         if (m_availableList.empty() == true)
         {
-            return m_createFunctor(m_availableList.getMemoryManager());
+            ObjectType* const   theObject =
+                m_createFunctor(m_availableList.getMemoryManager());
+
+            ++m_outstanding;
+
+            return theObject;
         }
         else
         {
             ObjectType* const   theObject = m_availableList.back();
 
             m_availableList.pop_back();
+
+            ++m_outstanding;
 
             return theObject;
         }
@@ -314,6 +339,11 @@ public:
         m_resetFunctor(theInstance);
 
         m_availableList.push_back(theInstance);
+
+        if (m_outstanding != 0)
+        {
+            --m_outstanding;
+        }
 
         return true;
     }
@@ -341,6 +371,9 @@ private:
 
     // Data members...
     VectorType          m_availableList;
+
+    // The number of objects handed out by get() and not yet released.
+    typename VectorType::size_type  m_outstanding;
 };
 
 
